@@ -3,7 +3,7 @@ LEVEL = "model_checking"
 TECHNIQUE = ("CBMC bounded symbolic execution of one real dispatch step (epoll_dispatch / poll_dispatch / select_dispatch + evmap_io_active_) "
              "after registration through the real evmap_io_add_/del_, against a kernel readiness model; event_active_nolock_ intercepted; "
              "oracle = reference reading of 'condition holds / is reported' (ref/c04_ready.h)")
-UNITS = ["epoll.c", "poll.c", "select.c", "evmap.c", "epolltable-internal.h", "changelist-internal.h"]
+UNITS = ["epoll.c", "poll.c", "select.c", "evmap.c", "epolltable-internal.h", "changelist-internal.h"]  # select_hifd_*: select.c select_add/select_resize/select_dispatch at fd 63..129
 FUNCTIONS = ["epoll_dispatch", "poll_dispatch", "select_dispatch", "evmap_io_active_", "evmap_io_add_", "evmap_io_del_",
              "epoll_apply_changes", "epoll_apply_one_change", "event_changelist_add_", "event_changelist_del_", "poll_add", "poll_del",
              "select_add", "select_del"]
@@ -13,7 +13,9 @@ BOUNDS = ("2 fds, 3 events (ev0, ev1 on fd A; ev2 on fd B), each never added / a
           "poll/select scan start offset (weak random) symbolic")
 OUT = ("real sockets/TCP states and which readiness combinations a real kernel can produce; kernel-side edge-trigger semantics (the model is level "
        "triggered; that EPOLLET is requested exactly when asked is C05); POLLNVAL/EBADF on fds closed while events are added; signalfd delivery (C07); "
-       "the callback layer above event_active_nolock_ (C02/C03); >32 ready events per epoll_wait (nevents growth)")
+       "the callback layer above event_active_nolock_ (C02/C03); >32 ready events per epoll_wait (nevents growth); descriptor numbers beyond the first "
+       "fd_mask word are covered for select only up to the select(2) call (select_hifd_*: sets/nfds handed to the kernel), not through the result scan; "
+       "poll/epoll with large descriptor numbers (evmap/pollfd table growth)")
 TEXT = ("For every back end one dispatch step activates an event only if it is currently added and one of its requested conditions holds on its fd, with result "
         "flags naming only requested conditions that hold (ERR/HUP count as readable and writable), at most once per wait; every added event with a requested "
         "condition the kernel reports ready is activated with that condition in its result; deleted events are never activated; the three back ends yield "
@@ -50,4 +52,12 @@ def obligations(tier):
             obs.append(step(bn, b, extra=kf, tag="_ndebug", ndebug=True))
     if tier == "thorough":
         obs.append(step("poll", 3, extra=["VP_LOCKS_ON", "VP_WITH_LOCK"], tag="_locked"))
+    # select at fd_mask word boundaries: the fd_set sizing arithmetic (the step_* harnesses never leave the first word)
+    for fd in ((64, 128) if tier == "quick" else (63, 64, 65, 127, 128, 129)):
+        n = fd + 4
+        obs.append(dict(name="select_hifd_%d" % fd, harness="C04_select_hifd.c", entry="harness_select_hifd",
+                        defines=["VP_FD=%d" % fd, "VP_WITH_LOW"], unwind=4,
+                        unwindset=["select.%d:%d" % (i, n) for i in range(4)] + ["evmap_io_active_.0:3", "evmap_make_space.0:8"] + ["select_add.%d:6" % i for i in range(5)],
+                        timeout=900, mem_gb=6,
+                        desc="select: events on fd %d and fd 3 (masks symbolic), fd_sets grown by select_add/select_resize; at the wait fd %d is in the sets/nfds handed to select() iff requested" % (fd, fd)))
     return obs
